@@ -1,6 +1,290 @@
-import DtnVerif.Model.TcpclEp
+/-
+  C18 — the D-Bus view of transfers is type-correct and consistent with reality (TCPCL session part).
+
+  Proved for every event list (user calls, socket progress, timers, arbitrary received octets):
+  * every signal has the argument kinds of its declared signature, every method returns a value of
+    the declared kind (`C18_types`, `C18_return_types`, tied to the source by `C18_facts`, `C18_sig_table`);
+  * send queue = ids handed out by `send` minus ids signalled finished; no id is signalled finished
+    twice; every finished id was handed out (`C18_send_queue`, `C18_finished_once`);
+  * when the endpoint is idle — the only state in which a graceful close happens — the send queue is
+    empty, i.e. every queued transfer has had its finished signal (`C18_idle_all_finished`,
+    `C18_graceful_close_idle`);
+  * the receive map refines a partial map: each `recv_bundle_finished` is a `set` of exactly the
+    completed transfer, `pop` returns the stored data and removes it (`C18_recv_step`, `C18_pop`);
+    every queued entry is a transfer completely received (`C18_recv_sound`);
+  * idle is exactly the declared conjunction (`C18_idle_iff`).
+  Not covered here: the integer ranges of 't' and 'y' arguments (lengths below 2^64, octets below 256),
+  the UDPCL agent's signals (decided by the implementation-side monitor and the UDPCL correspondence).
+-/
+import DtnVerif.Lemmas.TcpclShape
+import DtnVerif.Lemmas.TcpclQueueRx
+import DtnVerif.Lemmas.TcpclRun
+import DtnVerif.Generated.Facts
+import Std.Data.String.ToNat
 namespace DtnVerif
 namespace Tcpcl
-theorem C18_placeholder : True := trivial
+
+/- ------------------------------------------------------------------ declared signatures -/
+
+def sigOf (name : String) : Option (String × String × String) :=
+  (Facts.dbusSigs.find? (fun r => r.1 == "tcpcl.ContactHandler." ++ name)).map (·.2)
+
+theorem C18_facts :
+    sigOf "session_state_changed" = some ("signal", "s", "")
+    ∧ sigOf "send_bundle_started" = some ("signal", "st", "")
+    ∧ sigOf "send_bundle_intermediate" = some ("signal", "st", "")
+    ∧ sigOf "send_bundle_finished" = some ("signal", "sts", "")
+    ∧ sigOf "recv_bundle_started" = some ("signal", "sv", "")
+    ∧ sigOf "recv_bundle_intermediate" = some ("signal", "st", "")
+    ∧ sigOf "recv_bundle_finished" = some ("signal", "sts", "")
+    ∧ sigOf "get_session_state" = some ("method", "", "s")
+    ∧ sigOf "is_sess_idle" = some ("method", "", "b")
+    ∧ sigOf "send_bundle_get_queue" = some ("method", "", "as")
+    ∧ sigOf "recv_bundle_get_queue" = some ("method", "", "as")
+    ∧ sigOf "recv_bundle_pop_data" = some ("method", "s", "ay")
+    ∧ sigOf "send_bundle_data" = some ("method", "ay", "s")
+    ∧ sigOf "terminate" = some ("method", "y", "") := by
+  refine ⟨?_, ?_, ?_, ?_, ?_, ?_, ?_, ?_, ?_, ?_, ?_, ?_, ?_, ?_⟩ <;> decide
+
+/-- argument kind demanded by one signature character -/
+def kindOK (c : Char) (v : Val) : Bool :=
+  if c = 's' then v.isStr
+  else if c = 't' then v.isNat
+  else if c = 'v' then v.isStr || v.isNat
+  else false
+
+def conforms (sig : List Char) (args : List Val) : Bool :=
+  match sig, args with
+  | [], [] => true
+  | c :: cs, v :: vs => kindOK c v && conforms cs vs
+  | _, _ => false
+
+/-- the shape predicate used by `C18_types` is conformance to the declared signature strings -/
+theorem C18_sig_table (args : List Val) :
+    sigOK "session_state_changed" args = conforms ['s'] args
+    ∧ sigOK "send_bundle_started" args = conforms ['s', 't'] args
+    ∧ sigOK "send_bundle_intermediate" args = conforms ['s', 't'] args
+    ∧ sigOK "send_bundle_finished" args = conforms ['s', 't', 's'] args
+    ∧ sigOK "recv_bundle_started" args = conforms ['s', 'v'] args
+    ∧ sigOK "recv_bundle_intermediate" args = conforms ['s', 't'] args
+    ∧ sigOK "recv_bundle_finished" args = conforms ['s', 't', 's'] args := by
+  rcases args with _ | ⟨a, _ | ⟨b, _ | ⟨c, _ | ⟨d, r⟩⟩⟩⟩ <;> simp [sigOK, conforms, kindOK, Bool.and_assoc]
+
+theorem C18_sig_strings :
+    "s".toList = ['s'] ∧ "st".toList = ['s', 't'] ∧ "sts".toList = ['s', 't', 's'] ∧ "sv".toList = ['s', 'v'] := by
+  decide
+
+/- ------------------------------------------------------------------ types -/
+
+/-- Every signal emitted over any event list conforms to its declared signature. -/
+theorem C18_types (cfg : Cfg) (evs : List Ev) :
+    ∀ os ∈ (run { cfg := cfg } evs).2, ∀ o ∈ os, o.shapeOK = true := by
+  intro os hos o ho
+  have := sh_run evs { cfg := cfg } os hos
+  simp only [shapes, List.all_eq_true] at this
+  exact this o ho
+
+def retKindOK (sig : String) (v : Val) : Bool :=
+  match v with
+  | .str _ => sig == "s"
+  | .bool _ => sig == "b"
+  | .strs _ => sig == "as"
+  | .bytes _ => sig == "ay"
+  | .nat _ => false
+
+def querySig : Query → String
+  | .state => "s"
+  | .idle => "b"
+  | .txQueue => "as"
+  | .rxQueue => "as"
+
+/-- Method returns: the queue/state/idle queries, `pop` and `send` return a value of the declared kind
+    (or raise, for `pop` of an unknown id). -/
+theorem C18_return_types (e : Ep) :
+    (∀ q, (step e (.query q)).2 = [.ret (queryVal e q)] ∧ retKindOK (querySig q) (queryVal e q) = true)
+    ∧ (∀ tid, (∃ d, (step e (.pop tid)).2 = [.ret (.bytes d)]) ∨ (step e (.pop tid)).2 = [.raised "KeyError"])
+    ∧ (∀ d, (step e (.send d)).2 = [.ret (.str (natStr e.txNextId))] ∨ (step e (.send d)).2 = []) := by
+  refine ⟨?_, ?_, ?_⟩
+  · intro q
+    constructor
+    · unfold step; simp only []; split <;> rfl
+    · cases q <;> simp [queryVal, retKindOK, querySig, strsOf]
+  · intro tid
+    rw [q_step_pop]; unfold popRx
+    split
+    · exact Or.inl ⟨_, rfl⟩
+    · exact Or.inr rfl
+  · intro d
+    cases hc : e.closed
+    · exact Or.inl (q_step_send_fields e d hc).1
+    · rw [q_step_send_closed e d hc]; exact Or.inr rfl
+
+/- ------------------------------------------------------------------ send queue -/
+
+theorem QInv.init (cfg : Cfg) : QInv { cfg := cfg } :=
+  ⟨by simp [Ep.inflight, tmpTids], by simp, by simp [Ep.inflight, tmpTids], by simp⟩
+
+theorem RxQInv.init (cfg : Cfg) : RxQInv { cfg := cfg } := ⟨by simp, by simp⟩
+
+/-- The send queue is exactly "handed out and not yet finished".
+    Over any event list from a fresh endpoint there is a list `fin` of (id, length, text) such that
+    * the `send_bundle_finished` signals emitted, in order, are exactly `fin`;
+    * no id occurs twice in `fin`, and every id in `fin` was handed out (1 ≤ id < next id);
+    * the `send` calls returned, in order, exactly the ids 1, 2, …, next id − 1;
+    * an id is in the send queue iff it was handed out and is not in `fin`; the queue lists it once. -/
+theorem C18_send_queue (cfg : Cfg) (evs : List Ev) :
+    let r := run { cfg := cfg } evs
+    ∃ fin : List (Nat × Nat × String),
+      txFin r.2.flatten = fin.map txSig
+      ∧ (fin.map (·.1)).Nodup
+      ∧ (∀ t ∈ fin.map (·.1), 1 ≤ t ∧ t < r.1.txNextId)
+      ∧ sendRets evs r.2 = (List.range' 1 (r.1.txNextId - 1)).map retId
+      ∧ (∀ t, t ∈ r.1.txMap ↔ (1 ≤ t ∧ t < r.1.txNextId) ∧ t ∉ fin.map (·.1))
+      ∧ r.1.txMap.Nodup
+      ∧ queryVal r.1 .txQueue = .strs (r.1.txMap.map natStr) := by
+  intro r
+  obtain ⟨f, h1, h2, h3⟩ := q_run_tx_aux evs { cfg := cfg } { cfg := cfg } [] (TxHist.init (QInv.init cfg))
+  simp only [List.nil_append] at h2
+  refine ⟨f, h1, h2.nd, ?_, h3, ?_, h2.inv.nd, rfl⟩
+  · intro t ht
+    rcases h2.was t ht with h | h
+    · simp at h
+    · exact h
+  · intro t
+    rw [h2.live t]
+    simp [r]
+
+/-- No transfer id is ever announced finished twice — on the wire format of the signal too
+    (ids are rendered in decimal, which is injective). -/
+theorem C18_finished_once (cfg : Cfg) (evs : List Ev) :
+    ∃ fin : List (Nat × Nat × String),
+      txFin (run { cfg := cfg } evs).2.flatten = fin.map txSig ∧ (fin.map (fun f => natStr f.1)).Nodup := by
+  obtain ⟨fin, h1, h2, _⟩ := C18_send_queue cfg evs
+  refine ⟨fin, h1, ?_⟩
+  have : fin.map (fun f => natStr f.1) = (fin.map (·.1)).map natStr := by simp
+  rw [this]
+  exact List.Pairwise.map natStr (fun a b hab h => hab (Nat.repr_injective h)) h2
+
+/-- In every reachable state: idle ⇒ the send queue is empty (everything queued has been reported
+    finished, by `C18_send_queue` exactly once). -/
+theorem C18_idle_all_finished (cfg : Cfg) (evs : List Ev) :
+    isSessIdle (runEp { cfg := cfg } evs) = true → (runEp { cfg := cfg } evs).txMap = [] := by
+  intro hidle
+  have hq := (q_run_inv evs { cfg := cfg } (QInv.init cfg) (RxQInv.init cfg)).1
+  have : (runEp { cfg := cfg } evs).inflight = [] := by
+    simp only [isSessIdle, Bool.and_eq_true, List.isEmpty_iff, Option.isNone_iff_eq_none] at hidle
+    simp [Ep.inflight, hidle.1.2, hidle.2, hidle.1.1.2, tmpTids]
+  apply List.eq_nil_iff_forall_not_mem.mpr
+  intro t ht
+  have := (hq.iff t).mp ht
+  simp_all [runEp]
+
+/-- The graceful close (`_check_sess_term`) acts only on an idle endpoint. -/
+theorem C18_graceful_close_idle (e : Ep) : (checkSessTerm e).2 ≠ [] → isSessIdle e = true := by
+  unfold checkSessTerm
+  split
+  · rename_i h; intro _; simp only [Bool.and_eq_true] at h; exact h.2
+  · intro h; exact absurd rfl h
+
+/- ------------------------------------------------------------------ receive queue -/
+
+/-- One event against the abstract partial map. Any event other than `pop`: there is a list `new`
+    of completed transfers such that the `recv_bundle_finished` signals are exactly `new`, the receive
+    log grows by `new`, and the queue is the old one with `new` set, in order. -/
+theorem C18_recv_step (cfg : Cfg) (evs : List Ev) (ev : Ev) (hp : ev.isPop = false) :
+    let e := runEp { cfg := cfg } evs
+    ∃ new : List (Nat × Bytes),
+      rxFin (step e ev).2 = new.map rxSig ∧ (step e ev).1.rxLog = e.rxLog ++ new
+      ∧ ∀ t, rxLookup (step e ev).1.rxMap t = absIns (rxLookup e.rxMap) new t := by
+  intro e
+  have hq : QInv e := (q_run_inv evs { cfg := cfg } (QInv.init cfg) (RxQInv.init cfg)).1
+  by_cases hs : ev.isSend = true
+  · cases ev with
+    | send d =>
+      refine ⟨[], ?_, ?_, ?_⟩
+      · cases hc : e.closed
+        · rw [(q_step_send_fields e d hc).1]; rfl
+        · rw [q_step_send_closed e d hc]; rfl
+      · cases hc : e.closed
+        · rw [(q_step_send_fields e d hc).2.2.2.2.1]; simp
+        · rw [q_step_send_closed e d hc]; simp
+      · intro t
+        cases hc : e.closed
+        · rw [(q_step_send_fields e d hc).2.2.2.1]; rfl
+        · rw [q_step_send_closed e d hc]; rfl
+    | _ => simp [Ev.isSend] at hs
+  · obtain ⟨_, _, ⟨new, b1, b2, b3⟩⟩ := q_step e ev (by simpa using hs) hp hq
+    exact ⟨new, b1, b2, fun t => by rw [b3]; exact rxLookup_ins _ _ t⟩
+
+/-- `pop tid`: returns exactly the stored data and removes the entry (so a second `pop` raises);
+    raises `KeyError` and changes nothing when there is no entry. No signal, no change to the log. -/
+theorem C18_pop (e : Ep) (tid : Nat) :
+    (match rxLookup e.rxMap tid with
+     | some d => (step e (.pop tid)).2 = [.ret (.bytes d)]
+     | none => (step e (.pop tid)).2 = [.raised "KeyError"] ∧ (step e (.pop tid)).1 = e)
+    ∧ (∀ t, rxLookup (step e (.pop tid)).1.rxMap t = absDel (rxLookup e.rxMap) tid t)
+    ∧ (step e (.pop tid)).1.rxLog = e.rxLog := by
+  rw [q_step_pop]
+  unfold popRx rxLookup
+  cases h : e.rxMap.find? (·.1 == tid) with
+  | none =>
+    refine ⟨by simp, ?_, rfl⟩
+    intro t
+    have := rxLookup_del e.rxMap tid t
+    simp only [absDel, rxLookup] at this ⊢
+    by_cases ht : t = tid
+    · subst ht; simp [h]
+    · simp [ht]
+  | some p =>
+    obtain ⟨k, d⟩ := p
+    refine ⟨by simp, ?_, rfl⟩
+    intro t
+    exact rxLookup_del e.rxMap tid t
+
+/-- The receive queue only ever holds transfers that were completely received (with exactly their
+    octets, by C01: `rxLog = deliver processed`), each id once; the queue query lists those ids. -/
+theorem C18_recv_sound (cfg : Cfg) (evs : List Ev) :
+    let e := runEp { cfg := cfg } evs
+    (∀ t d, rxLookup e.rxMap t = some d → (t, d) ∈ e.rxLog)
+    ∧ (e.rxMap.map (·.1)).Nodup
+    ∧ (∀ t, t ∈ e.rxMap.map (·.1) ↔ (rxLookup e.rxMap t).isSome)
+    ∧ queryVal e .rxQueue = .strs ((e.rxMap.map (·.1)).map natStr) := by
+  intro e
+  have hr : RxQInv e := (q_run_inv evs { cfg := cfg } (QInv.init cfg) (RxQInv.init cfg)).2
+  refine ⟨?_, hr.keys, fun t => (rxLookup_isSome _ t).symm, rfl⟩
+  intro t d h
+  simp only [rxLookup, Option.map_eq_some_iff] at h
+  obtain ⟨p, hp, hd⟩ := h
+  have hm := List.mem_of_find?_eq_some hp
+  have hk := List.find?_some hp
+  simp only [beq_iff_eq] at hk
+  have := hr.sound p hm
+  rw [← hk, ← hd]
+  exact this
+
+/- ------------------------------------------------------------------ idle -/
+
+/-- The idle indication is exactly: no received octets awaiting processing, nothing buffered for
+    the socket, no transfer being received, none being segmented, none unstarted, none awaiting its
+    final acknowledgement. It is computed from the state at the time of the query, so it is true as
+    soon as all of that has drained. -/
+theorem C18_idle_iff (e : Ep) :
+    (queryVal e .idle = .bool true) ↔
+      (e.rx.buf = [] ∧ e.txBuf = [] ∧ e.connBuf = [] ∧ e.rxTmp = none ∧ e.txTmp = none
+        ∧ e.txPendStart = [] ∧ e.txPendAck = []) := by
+  simp [queryVal, isSessIdle, List.isEmpty_iff, and_assoc]
+
+/- ------------------------------------------------------------------ a concrete history -/
+
+section Example
+private def evsEx : List Ev :=
+  [.start, .send [1, 2], .send [3], .query .txQueue, .terminate 0, .query .txQueue]
+
+example : (run {} evsEx).2 =
+    [[.sig "session_state_changed" [.str "contact-negotiating"]],
+     [.ret (.str "1")], [.ret (.str "2")], [.ret (.strs ["1", "2"])],
+     [.raised "RuntimeError"], [.ret (.strs ["1", "2"])]] := by decide +kernel
+end Example
+
 end Tcpcl
 end DtnVerif
